@@ -851,6 +851,48 @@ impl<'a> Ctx<'a> {
         Some((*self.r.pick(pick_from), code))
     }
 
+    /// directed scenario: when a dry run shows the miner's proving-deadline callback failing on F1, enrol a
+    /// ProcessEarlyTerminations event for the same epoch and fail that second callback too
+    fn double_failure(&mut self) -> Option<(u64, ExitCode)> {
+        let dry = |cx: &Ctx| -> InvocationTrace {
+            let root = cx.w.v.checkpoint();
+            cx.w.v.take_invocations();
+            let _ = exec::<()>(&cx.w.v, &SYSTEM_ACTOR_ADDR, &CRON_ACTOR_ADDR, &TokenAmount::zero(), CronMethod::EpochTick as u64, None);
+            let t = cx.w.v.take_invocations().pop().unwrap();
+            cx.w.v.rollback(root);
+            cx.w.v.panics.borrow_mut().clear();
+            t
+        };
+        let t = dry(self);
+        let p = t.subinvocations.iter().find(|s| s.to == STORAGE_POWER_ACTOR_ADDR)?;
+        let failing = p.subinvocations.iter().any(|s| s.method == MinerMethod::OnDeferredCronEvent as u64 && s.to == self.w.miners[0].id && !s.exit_code.is_success());
+        if !failing { return None; }
+        // second event for the same miner at the current epoch
+        let e = self.epoch();
+        let mid = self.w.miners[0].id;
+        let payload = RawBytes::serialize(CronEventPayload { event_type: ET }).unwrap();
+        let res = exec(&self.w.v, &mid, &STORAGE_POWER_ACTOR_ADDR, &TokenAmount::zero(), PowerMethod::EnrollCronEvent as u64, Some(EnrollCronEventParams { event_epoch: e, payload }));
+        self.w.v.take_invocations();
+        let c = code(&res);
+        self.script.push(format!("double: enrol_et({} at {})={}", self.w.miners[0].idn, e, c));
+        let idn = self.w.miners[0].idn;
+        let s = self.push_step(format!("EnrolET {} {}", idn, cf::z(e)), c, &[]);
+        self.state_monitors(&s);
+        // ordinal of the second callback of this miner
+        let t = dry(self);
+        let p = t.subinvocations.iter().find(|s| s.to == STORAGE_POWER_ACTOR_ADDR)?;
+        let mut ord = 1u64; // the power node itself is send #0
+        let mut seen = 0;
+        for s in &p.subinvocations {
+            if s.method == MinerMethod::OnDeferredCronEvent as u64 && s.to == mid {
+                seen += 1;
+                if seen == 2 { return Some((ord, ExitCode::USR_ILLEGAL_STATE)); }
+            }
+            ord += 1 + count_sends(s) as u64;
+        }
+        None
+    }
+
     fn tick(&mut self, inject: Option<(u64, ExitCode)>) {
         let e = self.epoch();
         let pre = self.snap.clone();
@@ -1083,9 +1125,9 @@ fn run_case(cfg: &Cfg, stats: &mut Stats, stop_at: Option<usize>) -> (Case, Vec<
         v.policy.fault_max_age = PERIOD * (1 + r.below(2) as i64);
     }
     let budget = v.policy.addressed_sectors_max;
-    let padded = match scen { "f1" => false, "random" => r.chance(80), _ => true };
+    let padded = match scen { "f1" | "double" => false, "random" => r.chance(80), _ => true };
     let accts = create_accounts(&v, 6, &TokenAmount::from_whole(200_000));
-    let e0 = match scen { "f7" | "f1" | "f2" => r.range(1, 3000), _ => if r.chance(30) { r.range(1, 20) } else { r.range(1, 9000) } };
+    let e0 = match scen { "f7" | "f1" | "f2" | "double" => r.range(1, 3000), _ => if r.chance(30) { r.range(1, 20) } else { r.range(1, 9000) } };
     v.set_epoch(e0);
     v.take_invocations();
     let pst: PowerState = get_state(&v, &STORAGE_POWER_ACTOR_ADDR).unwrap();
@@ -1095,11 +1137,11 @@ fn run_case(cfg: &Cfg, stats: &mut Stats, stop_at: Option<usize>) -> (Case, Vec<
     cx.bump(if padded { "cases_padded" } else { "cases_unpadded" }, 1);
     if tweak { cx.bump("cases_policy_tweaked", 1); }
     cx.create_miner();
-    let len = match scen { "f1" | "drain" => cfg.len.max(3 * PERIOD as usize + 600), "f7" => cfg.len.max(PERIOD as usize + 400), "f2" => cfg.len.min(200), _ => cfg.len };
+    let len = match scen { "f1" | "drain" | "double" => cfg.len.max(3 * PERIOD as usize + 600), "f7" => cfg.len.max(PERIOD as usize + 400), "f2" => cfg.len.min(200), _ => cfg.len };
     // scripted openings of the directed scenarios
     let mut script_at: BTreeMap<i64, &str> = BTreeMap::new();
     match scen {
-        "f1" => { script_at.insert(e0 + 2, "precommit"); }
+        "f1" | "double" => { script_at.insert(e0 + 2, "precommit"); }
         "f7" => { script_at.insert(e0 + PERIOD + 70 + cx.r.range(0, 200), "precommit"); }
         "drain" => {
             script_at.insert(e0 + 2, "precommit5");
@@ -1143,8 +1185,28 @@ fn run_case(cfg: &Cfg, stats: &mut Stats, stop_at: Option<usize>) -> (Case, Vec<
             let allow_kill = has_due && late && cx.kills < 2;
             cx.choose_injection(allow_kill)
         } else { None };
+        let inject = if scen == "double" && has_due && cx.snap.claims.len() == 1 { cx.double_failure() } else { inject };
         if inject.is_some() { cx.bump("ticks_with_fault_plan", 1); }
         cx.tick(inject);
+    }
+    // second oracle: the repository's own cross-actor state invariants (state/src/check.rs).  Only its
+    // quirk-free cron message is a failure here (the per-event loop of check_miner_against_power reports a
+    // miner whose ProcessEarlyTerminations event is listed before its ProvingDeadline event as having "no
+    // proving period cron"; frozen miners that lost their claim are reported by design); the rest is counted.
+    if let Ok(Ok(acc)) = std::panic::catch_unwind(std::panic::AssertUnwindSafe(|| check_invariants(&cx.w.v, &cx.w.v.policy, None))) {
+        for m in acc.messages() {
+            if m.contains("duplicate proving period crons") {
+                cx.fail("schedule-wrong", format!("state/src/check.rs: {}", m));
+            } else if m.contains("cron") {
+                cx.bump("check_rs_cron_messages", 1);
+            } else if m.contains("no power claim") {
+                cx.bump("check_rs_no_claim_messages", 1);
+            } else {
+                cx.bump("check_rs_other_messages", 1);
+                if std::env::var("C05_DEBUG").is_ok() { eprintln!("check.rs: {}", m); }
+            }
+        }
+        cx.bump("check_rs_runs", 1);
     }
     let nontrivial = cx.accepted_msg && cx.pd_ok;
     let rs = cx.real_steps;
